@@ -710,7 +710,7 @@ pub fn run(tier: Tier) -> i32 {
     let mut ctx = Ctx::new("C08", tier);
     let pre = preflight();
     let seed = ctx.seed;
-    let per = tier.n(4000, 250_000);
+    let per = tier.n(4000, 600_000);
     let mut tally = ctx.par(32, |s| {
         let mut t = Tally::new();
         for i in 0..per {
@@ -731,7 +731,7 @@ pub fn run(tier: Tier) -> i32 {
             stable_api(&mut t);
         }
         if s == 1 {
-            direct_api(&mut t, seed, tier.n(3000, 200_000));
+            direct_api(&mut t, seed, tier.n(3000, 1_000_000));
         }
         t
     });
@@ -811,14 +811,14 @@ pub fn run(tier: Tier) -> i32 {
     if let Err(e) = &pre {
         tally.inconclusive.push(e.clone());
     }
-    ctx.gate("hostile cases executed (admitted by the http crate)", tally.get("executed/hostile"), tier.n(50_000, 3_000_000));
-    ctx.gate("validly signed requests with 1–3 byte-level edits executed", tally.get("executed/mutated-valid"), tier.n(50_000, 3_000_000));
+    ctx.gate("hostile cases executed (admitted by the http crate)", tally.get("executed/hostile"), tier.n(50_000, 6_000_000));
+    ctx.gate("validly signed requests with 1–3 byte-level edits executed", tally.get("executed/mutated-valid"), tier.n(50_000, 6_000_000));
     ctx.gate("charset labels executed", tally.get("charset_labels_executed"), LABELS.len() as u64 + 9);
     ctx.gate("heavy cases (≥ 60 KiB bodies, limit-length URIs) completed in the child process, folding on", tally.get("heavy_fold_on"), 25);
     ctx.gate("heavy cases completed, folding off", tally.get("heavy_fold_off"), 25);
     ctx.gate("public builders / conversions / formatting calls", tally.get("stable_api_calls"), 70);
     if cfg!(feature = "unstable-api") {
-        ctx.gate("authenticators built directly and validated", tally.get("direct/authenticator"), tier.n(3000, 200_000));
+        ctx.gate("authenticators built directly and validated", tally.get("direct/authenticator"), tier.n(3000, 1_000_000));
     }
     let kinds = (0..12u8).filter(|k| tally.get(&format!("outcome_err/{}", Kind::from_index(*k).name())) > 0).count() as u64;
     ctx.gate("distinct error kinds produced by the hostile workload", kinds, 8);
